@@ -972,6 +972,13 @@ def rule_encoder_assumptions_reach_sat_calls(ctx):
                             if callee_matches(callee_of(s), r"SatSolver::solve_under_assumptions$"):
                                 n += 1
                                 ok = _carries_encoder_assumptions(prog, qb, s.node["args"][1])
+                                # ... read after the pending updates were encoded: `update_encoding` retires and creates the switches
+                                _, acalls, _ = data_deps(qb, s.node["args"][1])
+                                reads = [c for c in acalls if re.search(r"::assumptions$", strip_generics(callee_name(callee_of(c)) or ""))]
+                                upds = [u for u in qb.calls() if re.search(r"::update_encoding$", strip_generics(callee_name(callee_of(u)) or ""))]
+                                early = [(a, u) for a in reads for u in upds if a.bb != u.bb and qb.reaches(a.bb, u.bb) and not qb.reaches(u.bb, a.bb)]
+                                if upds and reads:
+                                    r.check(not early, "%s|solve|order" % qb.id, "assumptions-read-before-update", "the encoder's assumptions are read after update_encoding", "the encoder's assumptions are read *before* update_encoding applies the pending updates: the switches of constraints created or retired by these updates are missing from the SAT call (or stale ones are assumed)", early[0][0].loc() if early else s.loc())
                                 r.check(ok, "%s|solve" % qb.id, "encoder-assumptions-missing", "the SAT call assumes encoder.assumptions()", "a SAT call of the query does not carry the encoder's current assumptions: constraints of removed arguments / attacks stay switched on (or those of present ones off)", s.loc())
                             elif callee_matches(callee_of(s), r"SatSolver::solve$"):
                                 n += 1
